@@ -10,6 +10,7 @@ import Driver.C06
 import Driver.C01
 import Driver.C10
 import Driver.C14
+import Driver.C15
 
 def main (args : List String) : IO UInt32 := do
   let stdin ← IO.getStdin
@@ -27,4 +28,5 @@ def main (args : List String) : IO UInt32 := do
   | ["c01", "nocmp"] => Driver.lineLoop stdin stdout (⟨false, ⟨6, 3, 6⟩, none, ⟨1, 0⟩, none, none⟩ : Driver.C01.St) Driver.C01.step; return 0
   | ["c10"] => Driver.lineLoop stdin stdout () Driver.C10.step; return 0
   | ["c14"] => Driver.lineLoop stdin stdout () Driver.C14.step; return 0
+  | ["c15", page] => Driver.lineLoop stdin stdout (page.toNat?.getD 4096) Driver.C15.step; return 0
   | _ => IO.eprintln "usage: zixdriver <component> < script"; return 2
